@@ -19,6 +19,7 @@ func init() {
 	vHarnesses["VerifC09FileFixedPoint"] = VerifC09FileFixedPoint
 	vHarnesses["VerifC10LineContent"] = VerifC10LineContent
 	vHarnesses["VerifC10LineMeaning"] = VerifC10LineMeaning
+	vHarnesses["VerifC10RejectedLine"] = VerifC10RejectedLine
 }
 
 // formatStep is the per-line step of `regex format` exactly as Parse(true) + processFile compose it:
@@ -79,10 +80,25 @@ func VerifC10LineContent() {
 	vReach("formatted")
 	if e1 == nil {
 		vAssert(stripWS(o1) == stripWS(l), "C10 formatting changes white space only")
-	} else {
-		// processFile appends string(line) of the failed step: the line must not be lost
-		vAssert(stripWS(o1) == stripWS(l), "C10 a line the formatter rejects is kept, not dropped")
 	}
+	// a line the step rejects (error) makes processFile stop before anything is written: that the file is then left
+	// byte-identical and the command fails is decided on processFile itself (VerifC10RejectedLine, C16)
+}
+
+// C10/C16: when the per-line step rejects a line, format does not write the file (the line is not lost) and fails.
+func VerifC10RejectedLine() {
+	l := vNondetStrOf("line", 6, "#!<> a")
+	_, _, e1 := formatStep(l, 0)
+	vAssume(e1 != nil)
+	dir := vTempDir()
+	path := dir + "/regex-assembly/942100.ra"
+	in := hdr1 + "\n" + hdr2 + "\n\na\n" + l + "\nb\n"
+	vWriteFile(path, in)
+	ctxt := processors.NewContext(context.NewWithConfiguration(dir, &configuration.Configuration{}))
+	err := processFile(path, ctxt, false)
+	vReach("processed")
+	vAssert(err != nil, "C10 format fails on a file with a line it cannot format")
+	vAssert(vReadFile(path) == in, "C10 a file with a line the formatter rejects is left byte-identical (no line is lost)")
 }
 
 // C10 (per line, meaning): for ANY ASCII line (control bytes included) the compiler classifies the formatted line as
